@@ -27,13 +27,17 @@ RULE = ('one run = one seeded FileStorage history (commits, aborts at every '
         'distinct = hash of the data-file bytes of the crash image before '
         'recovery; for a seeded subset of the images that recovery had to '
         'repair, the recovery\'s own operations are cut again (a second '
-        'crash while reopening) and judged by the same oracle')
+        'crash while reopening) and judged by the same oracle; at every '
+        'point where a commit returned, additionally the image in which '
+        'all data-file writes not yet followed by an fsync are lost')
 BUDGET = {'quick': {'runs': 4000, 'wall': 300, 'chunk': 10},
           'thorough': {'runs': 30000, 'wall': 3000, 'chunk': 10}}
 ASSUMPTIONS = [
     'crash model of the property: a prefix of the issued low-level '
     'operations with at most one torn (byte-prefix) write; no reordering of '
-    'un-synced writes',
+    'un-synced writes (all applied, or -- at acknowledgement points -- all '
+    'lost; arbitrary subsets of un-synced writes are not explored: '
+    'FileStorage issues one fsync per commit and relies on their order)',
     'a transaction whose tpc_finish had been invoked but had not returned '
     'at the crash may be present or absent',
 ]
@@ -352,9 +356,21 @@ def run(case):
         if mk['ret'] is not None:
             windows.update(range(mk['invoke'], mk['ret'] + 1))
     tmp_inos = set()
+    synced = bytes(snap0['inodes'][data_ino])
+    acks = {mk['ret'] for mk in marks if mk['ret'] is not None}
     for k in range(len(log) + 1):
         rep.advance(k)
         op = log[k - 1] if k else None
+        if op is not None and op[0] == 'fsync' and op[1] == data_ino:
+            synced = bytes(rep.inodes[data_ino])
+        if k in acks and PATH in rep.files:
+            # power loss right after a commit returned: every write to
+            # the data file that was not followed by an fsync is lost
+            img = rep.image(bufsize=case['bufsize'])
+            img.names[PATH].data = bytearray(synced)
+            rec.bump('power_loss_images')
+            rec.check(img, k, None, False, 'power loss after op %d/%d '
+                      '(un-synced data-file writes lost)' % (k, len(log)))
         if op is not None and op[0] == 'create' and op[1].endswith('.tmp'):
             tmp_inos.add(op[2])
         skip = (op is not None and op[0] in ('write', 'truncate')
